@@ -42,10 +42,11 @@ def run_property(pid, tier):
         print("ANALYSIS-ERROR property=%s internal: %r" % (pid, e))
         rep.error("internal", repr(e))
         try:
-            rep.finish("analysis aborted by internal error")
+            rc = rep.finish("analysis aborted by internal error")
         except Exception:
-            pass
-        return 2
+            rc = 2
+        # violations established before the abort stand (VIOLATION lines were printed): exit 1
+        return 1 if rc == 1 else 2
 
 
 def main(argv=None):
